@@ -15,6 +15,7 @@ RULE = ('constraint templates: 1-2 fields on attributes / child elements / mixed
         'the reference knows selected nodes and field tuples without any XPath; libxml2 arbitrates; a case = (template, '
         'table); distinct non-trivial = distinct (template, canonical table) with at least one duplicate, missing field or '
         'dangling reference')
+RULE += (' ' + 'The ID / IDREF shard also puts xs:ID, xs:IDREF and xs:IDREFS in element content, with forward references; XSD 1.0 binds such an ID to the element, XSD 1.1 to its parent.')
 ASSUMPTIONS = [
     'qualified node set = selected nodes for which every field evaluates to a value; incomplete unique / keyref tuples are not errors, an incomplete key tuple is',
     'values are compared in the value space of the declared field type (1 = 01 = +1, 1.0 = 1, true = 1)',
